@@ -11,7 +11,13 @@ def keep(o):
 
 def watch_failures(ck):
     """watch mode: a version of an input that makes the script fail, dependents must stay blocked until the repair"""
-    found, _known = watchrun.campaign(ck, 'C07', 8 if ck.tier == 'quick' else 90, break_bias=True)
+    # fixed: base <- mid <- top; mid's (outdated) build is still running when base is changed to a failing version and fails;
+    # mid is released more than a second later and completes: top must stay blocked
+    invalidated_in_flight = ({'w0': {'kind': 'build', 'own_input': True, 'producers': [], 'deps': []},
+                              'w1': {'kind': 'build', 'own_input': True, 'producers': [], 'deps': ['w0']},
+                              'w2': {'kind': 'build', 'own_input': False, 'producers': [], 'deps': ['w1']}}, ['w2'], True,
+                             [('bump', 'w1'), ('await_pending', 'w1'), ('bump', 'w0', 'bad'), ('hold_others', 'w1', 1.2), ('idle',)])
+    found, _known = watchrun.campaign(ck, 'C07', 8 if ck.tier == 'quick' else 90, break_bias=True, fixed=[invalidated_in_flight])
     found += engine.fixed_runs(ck, 'C07', engine.KILLED_DEPENDENCY + engine.FAILURE_NEXT_TO_RUNNING,
                                'a dependency whose script dies from a signal (no dependent starts, the run fails); a build failing '
                                'while an independent build runs and a service is up (non-zero exit naming it)')
